@@ -28,7 +28,7 @@ func (op M2rri) Op_show_assembler(arch *Arch) string {
 
 func (op M2rri) Op_get_instruction_len(arch *Arch) int {
 	opbits := arch.Opcodes_bits()
-	return opbits + int(arch.R) + int(arch.O) // The bits for the opcode + bits for a register + bits for the location
+	return opbits + int(arch.R) + int(arch.R) // The bits for the opcode + bits for a register + bits for the register holding the location
 }
 
 func (op M2rri) OpInstructionVerilogHeader(conf *Config, arch *Arch, flavor string, pname string) string {
